@@ -206,6 +206,12 @@ def real_upstream_check(R, b, shape_out, seed, salt, tol, sig, what):
 # ---------------------------------------------------------------------------------------------
 # 1. matrix DFT engine
 
+def ref_shift(shift):
+    from mc import ref_dft as _rd
+    a, b = _rd.norm_pair(shift)
+    return float(a), float(b)
+
+
 def run_mdft(case, seed, R):
     si, so = tuple(case['in']), tuple(case['out'])
     Q = c01.mk_Q(case['Q'])
@@ -225,6 +231,14 @@ def run_mdft(case, seed, R):
                 b = lambda g: bp(g, Q, s_in, shift)            # noqa
                 adjoint_check(R, f, b, si, so, seed, 3, sig, f'{name} {si}->{so} Q={Q} shift={shift}', eps=eps)
                 R.call(bp, dense(so, seed, 4), Q, s_in, shift, sig=sig + ':exception')    # direct call, array explicit (call hygiene)
+                # history on the shared executor, nothing cleared: the SAME geometry with other shifts (whatever the companion memoises
+                # per geometry -- conjugate-transposed bases, work arrays -- must be keyed on the shift too); then the first shift again
+                if case.get('hist'):
+                    sa, sb = ref_shift(shift)
+                    for sh2 in ((sa + 1.0, sb - 0.5), (0.0, 0.0), (sa, sb)):
+                        f2 = lambda a, sh2=sh2: fwd(a, Q, tuple(so), sh2)          # noqa
+                        b2 = lambda g, sh2=sh2: bp(g, Q, tuple(si), sh2)           # noqa
+                        adjoint_check(R, f2, b2, si, so, seed, 5, sig + ':after-other-shift', f'{name} {si}->{so} Q={Q} shift={sh2} after the same geometry with other shifts', eps=eps, dense_too=False)
         finally:
             config.precision = 64
     R.nontrivial(True)
@@ -784,6 +798,8 @@ def units(tier, seed):
                     if quick and not (max(si + so) <= 3 or shi == qi % len(c01.SHIFTS)):
                         continue
                     mdft_cases.append({'in': si, 'out': so, 'Q': q, 'shift': sh, 'prec': [64] if (quick and max(si + so) > 4) else [64, 32]})
+                    if max(si + so) <= 3 or (not quick and max(si + so) <= 4):
+                        mdft_cases[-1]['hist'] = 1       # followed, on the same executor, by the same geometry with other shifts
     # --- wrappers
     wr_cases = [{'n': n, 'N': N, 'dxo_rel': q, 'shift': sh, 'wvl': wvl, 'efl': efl, 'dxi': dxi}
                 for n in pup for N in foc for q in (1.0, 2.0, 1.37)
